@@ -122,6 +122,11 @@ def _store_sites(repo: Repo, L, ck):
         s = n.ast
         if n.kind != "stmt" or s is None:
             continue
+        if isinstance(s, ast.Assign) and len(s.targets) == 1 and isinstance(s.targets[0], ast.Subscript) and isinstance(s.targets[0].value, ast.Name) \
+                and s.targets[0].value.id in arr_role:
+            # host array filled in place: `arr[i] = x` (the functional form `arr = arr.at[i].set(x)` is read below)
+            arr = s.targets[0].value.id
+            sites.append((nid, s, {arr_role[arr]: s.value}, f"{arr}[i] = ... -> update({arr})"))
         for c in ast.walk(s):
             if not isinstance(c, ast.Call):
                 continue
@@ -357,6 +362,12 @@ def _episode_record(ck, repo):
 def _different_value(org, expr, at, wanted) -> bool | None:
     """True when ``expr`` is known to be another value than the protocol value ``wanted``: it depends on other step / reset
     positions.  None when that cannot be told (depends only on the wanted value - possibly an identity wrapper - or on untraceable names)."""
+    # the dependence reading is coarse (every name read): a field / element taken out of a composite value (`rec.next_obs`, `result[0]`)
+    # depends on everything the composite was built from, which says nothing about the one component that is read
+    called = {id(c.func) for c in ast.walk(expr) if isinstance(c, ast.Call)}
+    for x in ast.walk(expr):
+        if isinstance(x, (ast.Attribute, ast.Subscript)) and id(x) not in called and isinstance(x.value, (ast.Name, ast.Attribute, ast.Subscript, ast.Call)):
+            return None
     d = org.deps(expr, at)
     if any(x[0] == "unknown" for x in d):
         return None
